@@ -302,7 +302,8 @@ class GraphFamily(Family):
                         x = column_array(dt, [r[k]])[0]
                         if x != x or (x == 0 and np.signbit(x)):
                             special = True
-        return {"shapes": ",".join(shapes), "self_join": any(op[0] == "join" and op[1] == op[2] for op in ops),
+        # coarse on purpose: failures are grouped (and each group shrunk) by this signature
+        return {"nn": "nn" in shapes, "self_join": any(op[0] == "join" and op[1] == op[2] for op in ops),
                 "paired_dtypes_differ": widths_differ, "float_special": special,
                 "py": pyout if isinstance(pyout, str) else pyout[0]}
 
@@ -450,9 +451,6 @@ class Pair(GraphFamily):
                 nrow = 2
                 tabsL = list(itertools.product(rowsL, repeat=nrow))
                 tabsR = list(itertools.product(rowsR, repeat=nrow))
-                if tier == "quick" and len(tabsL) * len(tabsR) > 64:
-                    tabsL = tabsL[:: max(1, len(tabsL) // 8)]
-                    tabsR = tabsR[1:: max(1, len(tabsR) // 8)]
                 k = 0
                 for tl in tabsL:
                     for tr in tabsR:
